@@ -299,14 +299,16 @@ impl Dom {
         if !selected {
             return;
         }
-        // replace all with clones of option's children
+        // 1-2. clone option's children into a fragment first (selectedcontent itself may be one of
+        // the descendants being cloned) ...
+        let kids = self.n(option).children.clone();
+        let clones: Vec<Id> = kids.into_iter().map(|k| self.deep_clone(k)).collect();
+        // 3. ... then replace all within selectedcontent
         let old = std::mem::take(&mut self.nm(sc).children);
         for o in old {
             self.nm(o).parent = None;
         }
-        let kids = self.n(option).children.clone();
-        for k in kids {
-            let c = self.deep_clone(k);
+        for c in clones {
             self.nm(c).parent = Some(sc);
             self.nm(sc).children.push(c);
         }
